@@ -7,7 +7,7 @@ PLAN['C18'] = dict(
     level='fault_enumeration',
     exhaustive=True,
     units=std_units('C18', [('asan', 'sdcz', _C18_NROWS * _C18_NBQ, _C18_NROWS * _C18_NBT),
-                            ('asan-i64', 'dz', 0, _C18_NROWS * 16)], chunk=200),
+                            ('asan-i64', 'sdcz', 0, _C18_NROWS * 16)], chunk=200),
     rule='table of %d (routine, single-argument corruption, documented info) rows transcribed from the headers of ?gssv, ?gssvx, ?gsisx, ?gstrs, ?gsrfs, '
          '?gscon, ?gsequ, sp_?trsv; case index -> (row = index mod NROWS, base slot = index div NROWS): every row x every base slot x 4 precisions is executed '
          '(slot decides NC/NR storage, Fact mode DOFACT/SamePattern/SamePattern_SameRowPerm/FACTORED, equed letter, trans/norm/uplo; the seeded part is the small '
